@@ -23,7 +23,7 @@ REPO = os.environ.get('FE_REPO', '/repo')
 LEAN = os.environ.get('FE_LEAN', os.path.join(VERIF, 'lean'))
 BUILD = os.environ.get('FE_BUILD', os.path.join(VERIF, 'build'))
 REPLAYS = os.path.join(VERIF, 'replays')
-EVIDENCE = os.path.join(VERIF, 'evidence')
+EVIDENCE = os.environ.get('FE_EVIDENCE', os.path.join(VERIF, 'evidence'))
 ALLOWED_AXIOMS = {'propext', 'Classical.choice', 'Quot.sound'}
 FORBIDDEN = re.compile(r'\b(sorry|admit|native_decide|bv_decide|implemented_by|unsafe)\b|^\s*axiom\s|maxHeartbeats\s+0')
 
